@@ -89,7 +89,7 @@ func (g *PG) intExpr(d int) string {
 	switch k := r.Intn(17); {
 	case k == 16:
 		g.f("named-const")
-		return Pick(r, []string{"KA", "KB", "KA + 1", "KB - KA"})
+		return Pick(r, []string{"KA", "KB", "KA + 1", "KB - KA", "KC", "KD*3", "blanks(2)"})
 	case k < 4:
 		return g.intExpr(d-1) + Pick(r, []string{" + ", " - ", " * "}) + g.intExpr(d-1)
 	case k == 4:
@@ -468,7 +468,16 @@ func (g *PG) stmt(depth int) {
 		case len(g.vars("[]int")) > 0 && r.Chance(0.6):
 			g.f("range-slice")
 			kk, vv := g.fresh("k"), g.fresh("e")
-			g.w("for %s, %s := range %s {\n_ = %s\n_ = %s\n", kk, vv, Pick(r, g.vars("[]int")), kk, vv)
+			sl := Pick(r, g.vars("[]int"))
+			switch r.Intn(6) { // a loop variable may be named like the operand: the operand is evaluated before it exists
+			case 0:
+				vv = sl
+				g.f("range-variable-named-like-operand")
+			case 1:
+				kk = sl
+				g.f("range-variable-named-like-operand")
+			}
+			g.w("for %s, %s := range %s {\n_ = %s\n_ = %s\nprintln(\"rv\", %s, %s)\n", kk, vv, sl, kk, vv, kk, vv)
 			g.declare(kk, "int")
 			g.declare(vv, "int")
 			g.block(depth - 1)
@@ -557,7 +566,7 @@ func (g *PG) stmt(depth int) {
 // GenProgram returns a program and the set of features it uses.
 func GenProgram(r *RNG, depth int) (GoProg, map[string]bool) {
 	g := &PG{r: r, budget: 45, feat: map[string]bool{}}
-	g.w("const KA = 7\n\nconst KB = KA*2 + 1\n\nfunc idx(k int) int {\n\tprintln(\"idx\", k)\n\treturn k %% 3\n}\n\nvar fuel = 80\n\nvar gacc = 0\n\ntype T struct {\n\tA int\n\tB int\n}\n\nfunc (t *T) Sum(k int) int {\n\treturn t.A + t.B*k\n}\n\nfunc (t *T) Inc() {\n\tt.A++\n\tt.B += 2\n}\n\n")
+	g.w("const KA = 7\n\nconst KB = KA*2 + 1\n\nconst (\n\t_ = iota\n\tKC\n\tKD\n)\n\nfunc blanks(n int) int {\n\tconst (\n\t\t_ = iota * 10\n\t\tk1\n\t\t_\n\t\tk3\n\t)\n\tconst _ = 7\n\treturn n*k3 + k1\n}\n\nfunc idx(k int) int {\n\tprintln(\"idx\", k)\n\treturn k %% 3\n}\n\nvar fuel = 80\n\nvar gacc = 0\n\ntype T struct {\n\tA int\n\tB int\n}\n\nfunc (t *T) Sum(k int) int {\n\treturn t.A + t.B*k\n}\n\nfunc (t *T) Inc() {\n\tt.A++\n\tt.B += 2\n}\n\n")
 	g.w("func add(a int, b int) int {\n\treturn a + b\n}\n\nfunc isOdd(a int) bool {\n\treturn a%%2 != 0\n}\n\n")
 	g.w("func pair2(a int, b int) (int, int) {\n\treturn b, a + 1\n}\n\nfunc tri(a int) (int, int, int) {\n\treturn a, a + 1, a + 2\n}\n\n")
 	// results of other types than the parameters, returned as untyped constants: they take the result type
